@@ -1,7 +1,7 @@
 """C14 - compilation results do not depend on history or on earlier failures (engine H)."""
 from __future__ import annotations
 
-from hist_common import COMPILE_OPS, FMTS, SUB_CATALOGUE, HistEngine
+from hist_common import COMPILE_OPS, FMTS, SUB_CALLERS, SUB_CATALOGUE, HistEngine
 from sim import gen_beh, norm
 from sim.core import Chooser, EventLog, Violation, stable_hash
 
@@ -36,7 +36,15 @@ class EngineC14(HistEngine):
             inst = ch.draw(len(insts), "inst")
             if k == "add_sub":
                 s = ch.choice(SUB_CATALOGUE, "sub")
+                callers = SUB_CALLERS.get(s["name"], [])
+                if callers and s["name"] not in subs and ch.chance(1, 2, "call-before-registration"):
+                    # a call compiled while the routine is still unknown (rejected), the registration, the call again
+                    ops.append({"op": "stmt", "inst": ch.draw(len(insts), "cbinst"), "code": ch.choice(callers, "cb")})
                 ops.append(dict(s, op="add_sub", inst=inst))
+                if callers and s["name"] != "vf_bad" and ch.chance(1, 2, "call-after-registration"):
+                    subs_after = subs + ([s["name"]] if s["name"] not in subs else [])
+                    ops.append({"op": ch.choice(["stmt", "stmt", "fresh"], "caentry"), "inst": ch.draw(len(insts), "cainst"),
+                                "code": ch.choice(callers, "ca"), "fmt": insts[0]})
                 if s["name"] != "vf_bad" and s["name"] not in subs:
                     subs.append(s["name"])
                 continue
